@@ -667,6 +667,11 @@ class CallMixin:
                 return r
             if isinstance(v, VOpaque) and v.tag == 'emptylist':
                 return VInt(0)
+            if isinstance(v, VOpaque) and v.tag == 'str':
+                # the length of an unknown str: some non-negative integer
+                r = self.fresh_int('strlen')
+                self.assume(r >= 0)
+                return VInt(r)
             raise Unsupported(f"len of {v!r}")
         if name == 'open':
             c = self.reg.get('builtins.open')
@@ -859,14 +864,35 @@ class CallMixin:
         return VInt(r)
 
     def sum_seq(self, s, fr, node):
-        """sum over a symbolic sequence: a fresh partial-sum function with its recursive definition as axioms."""
-        name = self.fresh_name('psum')
-        ps = z3.Function(name, I, I)
-        k = self.fresh_int('k')
-        self.assume(ps(0) == 0)
-        self.assume(z3.ForAll([k], z3.Implies(z3.And(k >= 0, k < s.n), ps(k + 1) == ps(k) + self.as_int(seq_get(s, k)))))
+        """sum over a symbolic sequence: the prefix-sum function of `sumof` (recursive definition as axioms), hash-consed on
+        the element term written over the index variable `sumk!k` - so `sum(e(x) for x in xs)` in the code and
+        `sumof(k, 0, len(xs), e(xs[k]))` in a contract denote the same function when the summands are the same term."""
+        iv = z3.Int('sumk!k')
+        if getattr(s, 'comp_def', None) is not None:
+            # the sequence is a comprehension [e(x) for x in xs]: sum its defining element term
+            e = z3.simplify(z3.substitute(s.comp_def[1], (s.comp_def[0], iv)))
+        else:
+            e = z3.simplify(self.as_int(seq_get(s, iv)))
+        key = e.sexpr()
+        ps = self._sumdefs.get(key)
+        if ps is None:
+            ps = z3.Function(self.fresh_name('psumof'), I, I)
+            self._sumdefs[key] = ps
+            n = self.fresh_int('n')
+            self.assume(ps(0) == 0)
+            self.assume(z3.ForAll([n], z3.Implies(n > 0, ps(n) == ps(n - 1) + z3.substitute(e, (iv, n - 1))), patterns=[ps(n)]))
         self.last_psum = ps
+        self.sum_lower_bound_lemma(ps, e, iv, s.n)
         return VInt(ps(s.n))
+
+    def sum_lower_bound_lemma(self, ps, e, iv, n):
+        """Induction schema for prefix sums (trusted meta-theorem, proved by induction on m on paper; the step
+        `S(m) >= c*m and e(m) >= c  =>  S(m+1) >= c*(m+1)` is linear): if every summand below n is at least the constant c then
+        S(m) >= c*m for every 0 <= m <= n.  Instantiated for c = 0 and c = 1."""
+        k, m = self.fresh_int('lk'), self.fresh_int('lm')
+        for c in (0, 1):
+            hyp = z3.ForAll([k], z3.Implies(z3.And(k >= 0, k < n), z3.substitute(e, (iv, k)) >= c))
+            self.assume(z3.Implies(hyp, z3.ForAll([m], z3.Implies(z3.And(m >= 0, m <= n), ps(m) >= c * m), patterns=[ps(m)])))
 
     def const_method(self, fn, args, fr, node):
         recv, attr = fn.py
